@@ -1,1 +1,4 @@
 // hook file for ntpd/src/daemon/sock_source.rs: declares the per-property harness modules
+#[cfg(any(verif_all, verif_c40))]
+#[path = "/verif/harness/ntpd/c40.rs"]
+mod c40;
